@@ -271,6 +271,7 @@ func corrupted(lo, hi int) {
 		bad, _ = rewrite(op, &pos, alt(k), false)
 	}
 	var reply []*ovsdb.OperationResult
+	rt.Observe("request", string(raw(bad)))
 	_ = e.srv.Transact(e.cli, []json.RawMessage{raw("V"), raw(bad)}, &reply)
 	rt.Reach("ran")
 	rt.Assert(e.serves(), "C19: the server keeps serving after any transact request")
